@@ -22,13 +22,15 @@ def express(s):
         head = f"ENTITY {e['name']}"
         if e.get("andor"):
             head += " SUPERTYPE OF (" + " ANDOR ".join(e["andor"]) + ")"
-        if e.get("sup"):
-            head += f" SUBTYPE OF ({e['sup']})"
+        if sups_of(e):
+            head += " SUBTYPE OF (" + ", ".join(sups_of(e)) + ")"
         out.append(head + ";")
         for (n, k, t) in e["attrs"]:
             ty = {"str": "STRING", "int": "INTEGER", "optstr": "OPTIONAL STRING", "ref": t, "optref": f"OPTIONAL {t}",
                   "listref": f"LIST [0:?] OF {t}", "setref": f"SET [0:?] OF {t}"}[k]
             out.append(f"  {n} : {ty};")
+        for (n, owner, t) in e.get("redecl", []):
+            out.append(f"  SELF\\{owner}.{n} : {t};")
         if e.get("inverses"):
             out.append("INVERSE")
             for (n, aggr, over, attr) in e["inverses"]:
@@ -38,25 +40,52 @@ def express(s):
     return "\n".join(out) + "\n"
 
 
+def sups_of(e):
+    """declared supertypes in order: `sups` (list) or `sup` (one)"""
+    return list(e.get("sups") or ([e["sup"]] if e.get("sup") else []))
+
+
 def ent(s, name):
     return next(e for e in s["entities"] if e["name"] == name)
 
 
 def supers(s, name):
-    """name and all its supertypes, most specific first"""
-    out = []
-    while name:
-        out.append(name)
-        name = ent(s, name).get("sup")
+    """name and all its supertypes (breadth first, each once), most specific first"""
+    out, todo = [], [name]
+    while todo:
+        n = todo.pop(0)
+        if n in out:
+            continue
+        out.append(n)
+        todo += sups_of(ent(s, n))
     return out
 
 
+def attr_order(s, name, seen=None):
+    """entities in Part 21 internal-mapping order: supertypes in declaration order (recursively, each once), then the entity"""
+    seen = seen if seen is not None else []
+    for sp in sups_of(ent(s, name)):
+        attr_order(s, sp, seen)
+    if name not in seen:
+        seen.append(name)
+    return seen
+
+
 def all_attrs(s, name):
-    """explicit attributes in Part 21 order (supertype first) as (owner, attrname, kind, target)"""
+    """explicit attributes in Part 21 order (supertypes first, in declaration order) as (owner, attrname, kind, target)"""
     out = []
-    for en in reversed(supers(s, name)):
+    for en in attr_order(s, name):
         for (n, k, t) in ent(s, en)["attrs"]:
             out.append((en, n, k, t))
+    return out
+
+
+def redeclared(s, name):
+    """{attrname: new target} for the attributes entity `name` (or a supertype) redeclares"""
+    out = {}
+    for en in supers(s, name):
+        for (n, owner, t) in ent(s, en).get("redecl", []):
+            out.setdefault(n, t)
     return out
 
 
@@ -85,7 +114,7 @@ def schema_c10(rng, idx):
     return {"name": nm, "entities": ents}
 
 
-def schema_c11(rng, idx, ninv=None, complex_ref=False):
+def schema_c11(rng, idx, ninv=None, complex_ref=False, mi=False, deep=False, redecl=False):
     """targets with 1-3 inverse attributes (own and inherited, aggregate and single), several referrer entities,
     a referrer subtype, referrers that also mention the target through another attribute"""
     nm = f"iv{idx}"
@@ -102,10 +131,34 @@ def schema_c11(rng, idx, ninv=None, complex_ref=False):
         ent({"entities": ents}, "rel")["andor"] = ["ra", "rb"]
         ents += [{"name": "ra", "sup": "rel", "attrs": [("za", "int", None)]},
                  {"name": "rb", "sup": "rel", "attrs": [("zb", "optstr", None)]}]
+    # an entity whose inverse attributes are over itself: an instance can be its own referrer
+    ents.append({"name": "sn", "attrs": [("nm", "str", None), ("nxt", "optref", "sn"), ("deps", "setref", "sn"), ("boss", "optref", "sn")],
+                 "inverses": [("prevs", True, "sn", "nxt"), ("users", True, "sn", "deps"), ("minion", False, "sn", "boss")]})
+    if mi:
+        # subtypes of the inverted entity with several supertypes: rel first (m1) and rel second (m2) - in m2 the attributes of
+        # `doc` come before those of `rel`, so rel's attributes sit at other positions than in REL / M1 instances
+        ents += [{"name": "doc", "attrs": [("dfor", "optref", "tg")]},
+                 {"name": "m1", "sups": ["rel", "doc"], "attrs": [("z1", "int", None)]},
+                 {"name": "m2", "sups": ["doc", "rel"], "attrs": [("z2", "int", None)]}]
+    if deep:
+        # targets that inherit their inverse attributes from a grand-supertype (tsub2) or from a second supertype (tmi)
+        ents += [{"name": "tsub2", "sup": "tsub", "attrs": [("e", "optstr", None)]},
+                 {"name": "aux", "attrs": [("a", "int", None)]},
+                 {"name": "tmi", "sups": ["aux", "tg"], "attrs": [("f", "optstr", None)]}]
+    if redecl:
+        # a referrer subtype that redeclares the inverted attribute (SELF\rel.one : tsub)
+        ents.append({"name": "rre", "sup": "rel", "attrs": [("zr", "int", None)], "redecl": [("one", "rel", "tsub")]})
     cands = [("rel", "one"), ("rel", "many"), ("qel", "q1"), ("qel", "qs"), ("rel", "oth"), ("rsub", "one")]
+    if redecl:
+        cands = [("rel", "one"), ("rel", "many"), ("qel", "q1")]
+        rng.shuffle(cands)
+        cands.remove(("rel", "one")); cands.insert(0, ("rel", "one"))      # the redeclared attribute is always inverted
+    if mi:
+        cands = [("rel", "one"), ("rel", "many"), ("rel", "oth"), ("m2", "one"), ("qel", "q1")]
     if complex_ref:
         cands = [("rel", "one"), ("rel", "many"), ("rel", "oth")]
-    rng.shuffle(cands)
+    if not redecl:
+        rng.shuffle(cands)
     used = cands[:ninv]
     for i, (over, attr) in enumerate(used):
         owner = "tsub" if (shape == 1 and i == ninv - 1) else "tg"
@@ -180,10 +233,13 @@ def population(rng, s, n, cyc=0.5, plain_strings=False, maxid=None):
     for k, x in enumerate(insts):
         parts = []
         shape = x["shape"]
+        selfy = lambda t: cyc != 0 and t is not None and any(is_a(s, p_, t) for p_ in shape)
         complex_ = len(shape) > 1
         heavy = complex_ and not plain_strings and rng.random() < 0.6
         for p in sorted(shape) if complex_ else shape:
             attrs = ent(s, p)["attrs"] if complex_ else [(n_, k_, t_) for (_, n_, k_, t_) in all_attrs(s, p)]
+            rd = {} if complex_ else redeclared(s, p)
+            attrs = [(n_, k_, rd.get(n_, t_)) for (n_, k_, t_) in attrs]
             vals = []
             for (an, kind, tgt) in attrs:
                 # acyclic populations: only references to earlier instances
@@ -198,14 +254,19 @@ def population(rng, s, n, cyc=0.5, plain_strings=False, maxid=None):
                     vals.append(("int", rng.randint(-99, 999)))
                 elif kind == "ref":
                     vals.append(("ref", rng.choice(pool)) if pool else None)
+                elif kind == "optref" and selfy(tgt) and rng.random() < 0.2:
+                    vals.append(("ref", x["id"]))                      # an instance that refers to itself
                 elif kind == "optref":
                     vals.append(("ref", rng.choice(pool)) if pool and rng.random() < 0.75 else ("null",))
                 else:
                     m = rng.randint(0, 4) if pool else 0
                     if kind == "setref":
-                        vals.append(("agg", rng.sample(pool, min(m, len(pool)))))
+                        agg = rng.sample(pool, min(m, len(pool)))
                     else:
-                        vals.append(("agg", [rng.choice(pool) for _ in range(m)]))
+                        agg = [rng.choice(pool) for _ in range(m)]
+                    if selfy(tgt) and rng.random() < 0.2 and x["id"] not in agg:
+                        agg.insert(rng.randrange(len(agg) + 1), x["id"])   # ... alone or among other referrers
+                    vals.append(("agg", agg))
             parts.append((p, vals))
         x["parts"] = parts
     # a required reference without any candidate: drop the instance (rare; keeps the file conforming)
@@ -262,7 +323,7 @@ def attr_refs(s, x, owner_chain_entity, attr):
     return out
 
 
-def inverse_truth(s, pop, x, skip_complex=False):
+def inverse_truth(s, pop, x, skip_complex=False, skip_redecl=False):
     """{(invname, owner): sorted referrer ids} for every inverse attribute x has (own or inherited);
     skip_complex: leave complex (externally mapped) referrers out - what the known `complex-referrer` defect yields"""
     res = {}
@@ -274,6 +335,8 @@ def inverse_truth(s, pop, x, skip_complex=False):
             refs = []
             for y in pop:
                 if skip_complex and len(y["parts"]) > 1:
+                    continue
+                if skip_redecl and len(y["parts"]) == 1 and attr in redeclared(s, y["parts"][0][0]):
                     continue
                 if any(is_a(s, p, over) for (p, _) in y["parts"]) and x["id"] in attr_refs(s, y, over, attr):
                     refs.append(y["id"])
